@@ -79,3 +79,11 @@ func verifGoid() uint64 {
 	}
 	return id
 }
+
+// VerifTracePeek returns a copy of the events logged so far (recording stays on).
+func VerifTracePeek() []VerifEvent {
+	verifLog.mu.Lock()
+	evs := append([]VerifEvent(nil), verifLog.evs...)
+	verifLog.mu.Unlock()
+	return evs
+}
